@@ -24,8 +24,7 @@ External functions are fields of `Ext` (never axioms): Unicode normalisation,
 `ctystrings.SafeKnownPrefix` on the byte-cut prefix, and the construction of a
 set from its decoded members (`cty.SetVal`: hashing and de-duplication belong to
 property C03).  Where the Go decoder gets out of step with the item structure
-(a non-string key of a cty map is skipped *without* its payload bytes; an
-extension item where a map header is expected) the model answers `.unmodelled`.
+(an extension item where a map header is expected) the model answers `.unmodelled`.
 
 Core Lean only: the driver links this file.
 -/
@@ -412,12 +411,14 @@ def decString : Item → Res String
 
 /-! ## Value constructors used by the decoder (value_init.go) -/
 
-/-- the element type `ListVal` / `SetVal` / `MapVal` infer; a panic for inconsistent types -/
+/-- the element type `ListVal` / `SetVal` / `MapVal` infer.  The decoder first asks
+`CanListVal` / `CanSetVal` / `CanMapVal` (the same walk) and reports members of
+different types as an error -/
 def elemTy : List Value → Ty → Res Ty
   | [], acc => .ok acc
   | v :: vs, acc =>
     if acc.isDyn then elemTy vs v.ty
-    else if !v.ty.isDyn && !(acc.equals v.ty) then .panic "inconsistent element types"
+    else if !v.ty.isDyn && !(acc.equals v.ty) then .err "all elements must have the same type"
     else elemTy vs acc
 
 def payloads : List Value → List Payload
@@ -471,7 +472,7 @@ def unmarshalNumber : Item → Res Num
   | .int i => .ok (Num.ofInt i 64)
   | .uint u => .ok (Num.ofNat u 64)
   | .f32 x | .f64 x => .ok x
-  | .fnan => .panic "Float.SetFloat64(NaN)"
+  | .fnan => .err "number is required"
   | it =>
     match decString it with
     | .ok s => (match parseNumber s with
@@ -485,24 +486,45 @@ def unmarshalNumber : Item → Res Num
 
 def boundTy : Ty := .tuple [.number, .bool]
 
+/-- the deferred `recover()` of `unmarshalUnknownValue`: a panic of the refinement
+builder (contradictory refinements) comes back as an error -/
+def recoverErr {α : Type} : Res α → Res α
+  | .panic _ => .err "invalid refinements for unknown value"
+  | r => r
+
+/-- `(&ty).UnmarshalJSON(typeJSON)`.  cty/json.go now rejects an optional attribute that the
+object type does not declare with an error; `Ty.ofJson` (TyJson.lean, property C07's) may
+still describe the earlier panic, which is mapped here so that this model follows the code. -/
+def typeOfJson (E : Ext) (j : Json) : Res Ty :=
+  match Ty.ofJson E.norm j with
+  | .panic _ => .err "invalid object type"
+  | r => r
+
+/-! How the refinement builder's `Value.Equals` on numbers is answered is a parameter
+(`Refine.EqOracle`): the driver runs the decoder with `textOracle` (what the code does)
+and with `partialOracle` (exact, the instance the theorems are stated for). -/
+section Oracle
+variable [O : EqOracle]
+
 mutual
 def unmarshal (E : Ext) (it : Item) (ty : Ty) : Res Value :=
   match it with
   | .ext code len hdr stream =>
-    -- unmarshalUnknownValue
-    if len ≤ 1 then .ok (Value.unknown ty)
-    else if code ≠ unknownWithRefinementsExt then .err "unsupported extension type"
-    else if len > maxExtLen then .err "oversize unknown value refinement"
-    else
-      match hdr with
-      | .other => .err "not a map"
-      | .ext => .unmodelled
-      | .nil =>
-        if ty.isDyn then .ok (Value.unknown ty)
-        else (Refine.init (Value.unknown ty)).bind Refine.newValue
-      | .map n =>
-        if ty.isDyn then .ok (Value.unknown ty)
-        else (Refine.init (Value.unknown ty)).bind fun b => (rfnLoop E ty n stream b).bind Refine.newValue
+    -- unmarshalUnknownValue (under its deferred recover)
+    recoverErr
+      (if len ≤ 1 then .ok (Value.unknown ty)
+       else if code ≠ unknownWithRefinementsExt then .err "unsupported extension type"
+       else if len > maxExtLen then .err "oversize unknown value refinement"
+       else
+         match hdr with
+         | .other => .err "not a map"
+         | .ext => .unmodelled
+         | .nil =>
+           if ty.isDyn then .ok (Value.unknown ty)
+           else (Refine.init (Value.unknown ty)).bind Refine.newValue
+         | .map n =>
+           if ty.isDyn then .ok (Value.unknown ty)
+           else (Refine.init (Value.unknown ty)).bind fun b => (rfnLoop E ty n stream b).bind Refine.newValue)
   | .nil => .ok (Value.null ty)          -- also for the placeholder: `DecodeArrayLen` answers -1
   | .bool b =>
     (match ty with
@@ -537,7 +559,7 @@ def unmarshal (E : Ext) (it : Item) (ty : Ty) : Res Value :=
         | [tj, body] =>
           let tyr : Res Ty :=
             match tj with
-            | .binj j => Ty.ofJson E.norm j
+            | .binj j => typeOfJson E j
             | .nil => .err "unexpected end of JSON input"
             | .bin _ | .str _ => .unmodelled      -- JSON lexing of raw bytes is not modelled
             | _ => .err "bytes"
@@ -554,8 +576,8 @@ def unmarshal (E : Ext) (it : Item) (ty : Ty) : Res Value :=
        if xs.isEmpty then .ok ⟨.set e, .sset [] []⟩
        else (unmarshalAll E xs e).bind (setVal E)
      | .tuple es =>
-       if xs.isEmpty then .ok ⟨.tuple [], .seq []⟩
-       else if xs.length ≠ es.length then .err "a tuple of that length is required"
+       if xs.length ≠ es.length then .err "a tuple of that length is required"
+       else if xs.isEmpty then .ok ⟨.tuple [], .seq []⟩
        else (unmarshalZip E xs es).map tupleVal
      | .capsule _ => .err "unsupported type"
      | _ => .err "wrong kind")
@@ -565,8 +587,8 @@ def unmarshal (E : Ext) (it : Item) (ty : Ty) : Res Value :=
        if ks.isEmpty then .ok ⟨.map e, .smap [] []⟩
        else (unmarshalEntries E ks vs e [] []).bind fun r => mapVal E r.1 r.2
      | .object ns ts os =>
-       if ks.isEmpty then .ok ⟨.object [] [] [], .smap [] []⟩
-       else if ks.length ≠ ts.length then .err "an object with that many attributes is required"
+       if ks.length ≠ ts.length then .err "an object with that many attributes is required"
+       else if ks.isEmpty then .ok ⟨.object [] [] [], .smap [] []⟩
        else (unmarshalAttrs E ks vs ns ts os [] []).bind fun r => objectVal E r.1 r.2
      | .dyn => .err "array"
      | .capsule _ => .err "unsupported type"
@@ -589,9 +611,8 @@ def unmarshalZip (E : Ext) : List Item → List Ty → Res (List Value)
      | .panic w => .panic w
      | .unmodelled => .unmodelled)
   | _, _ => .ok []
-/-- entries of a cty map: `vals[key] = val`, later duplicates overwrite.  The
-error of a non-string key is dropped by the Go code, which then reads on in the
-middle of the key item: `.unmodelled` -/
+/-- entries of a cty map: `vals[key] = val`, later duplicates overwrite; a key that is
+not a string is an error -/
 def unmarshalEntries (E : Ext) : List Item → List Item → Ty → List String → List Value →
     Res (List String × List Value)
   | k :: ks, v :: vs, e, accK, accV =>
@@ -604,7 +625,10 @@ def unmarshalEntries (E : Ext) : List Item → List Item → Ty → List String 
         | .err c => .err c
         | .panic w => .panic w
         | .unmodelled => .unmodelled)
-     | _ => .unmodelled)
+     | .err "utf8" => .unmodelled              -- a key that is not UTF-8 (the model's strings are)
+     | .err _ => .err "non-string key in map"
+     | .panic w => .panic w
+     | .unmodelled => .unmodelled)
   | _, _, _, accK, accV => .ok (accK, accV)
 /-- entries of an object -/
 def unmarshalAttrs (E : Ext) : List Item → List Item → List String → List Ty → List Bool →
@@ -615,6 +639,7 @@ def unmarshalAttrs (E : Ext) : List Item → List Item → List String → List 
        (match Ty.find key ns ts os with
         | none => .err "unsupported attribute"
         | some (aty, _) =>
+          if accK.contains key then .err "duplicate attribute" else
           (match unmarshal E v aty with
            | .ok val =>
              let r := insertKV key val accK accV
@@ -627,8 +652,7 @@ def unmarshalAttrs (E : Ext) : List Item → List Item → List String → List 
      | .unmodelled => .unmodelled)
   | _, _, _, _, _, accK, accV => .ok (accK, accV)
 /-- the loop over the entries of a refinement map: `n` entries still announced,
-`stream` the items not yet consumed.  The value of an unrecognised key is NOT
-skipped (the `switch` has no default), so the next key is read from it. -/
+`stream` the items not yet consumed.  The value of an unrecognised key is skipped. -/
 def rfnLoop (E : Ext) (ty : Ty) : Nat → List Item → Builder → Res Builder
   | 0, _, b => .ok b
   | _ + 1, [], _ => .err "non-integer key in map"
@@ -695,13 +719,17 @@ def rfnLoop (E : Ext) (ty : Ty) : Nat → List Item → Builder → Res Builder
                       | .err c => .err c
                       | .panic w => .panic w
                       | .unmodelled => .unmodelled)
-                   | .seq [] => .panic "index out of range"      -- `rawBound.Index(cty.Zero)` on the empty tuple
                    | _ => .err "bound refinement must be [number, bool] array")
               | .err _ => .err "bound refinement must be [number, bool] array"
               | .panic w => .panic w
               | .unmodelled => .unmodelled))
-      else rfnLoop E ty n rest b
+      else
+        (match rest with
+         | [] => .err "failed to decode msgpack extension body"
+         | _ :: rest' => rfnLoop E ty n rest' b)
 end
+
+end Oracle
 
 /-! ## `ImpliedType` (type_implied.go) -/
 
